@@ -20,7 +20,7 @@ COMMON_ASSUME = [
 
 prop('C01', 'p32', 'exploration',
      'rapid draws (chunk shapes x requested kind per chunk x key alignment relation x storage form of each operand x op x static/in-place x self); '
-     'a case is non-trivial when both operands are non-empty and share at least one chunk key; distinct = FNV-64 of the full case description (specs, forms, op). '
+     'two cases in three continue with a second in-place step on the result with a third related operand, after which the copy-on-write twin of each operand, the untouched operands and the bytes behind zero-copy operands are compared with their models; a case is non-trivial when both operands are non-empty and share at least one chunk key; distinct = FNV-64 of the full case description (specs, forms, op). '
      'In addition TestC01Matrix ENUMERATES a finite space, partitioned over the shards: every ordered pair of 13 (quick) / 25 (thorough) boundary templates on one aligned chunk (4096/4097 values, full, full-1, 2047/2048 runs, word edges, ...) x requested kinds {natural, run} x {owned, zero-copy shared} per side x with/without unaligned neighbour chunks x 4 ops x {static, in-place}',
      T(4, 2500, 16, 40000),
      'property-based differential testing against an interval-set model (rapid), kinds forced through an independent encoder',
@@ -38,7 +38,7 @@ prop('C02', 'p32', 'exploration',
      COMMON_ASSUME, fuzz=[('p32', 'FuzzOps32', 120)])
 
 prop('C03', 'p32', 'exploration',
-     'rapid draws a bitmap (shape x kind per chunk x storage form) and query arguments biased to elements, element+-1, chunk edges, 0, 2^32-1, 2^32; every scalar query is compared with the interval-set model; '
+     'rapid draws a bitmap (shape x kind per chunk x storage form; one time in three a bitmap with a history: spec, then mutations, algebra and many-way aggregates) and query arguments biased to elements, element+-1, chunk edges, 0, 2^32-1, 2^32; every scalar query is compared with the interval-set model; '
      'Equals against 6 derived sets in other representations; purity via ToBytes/Checksum before/after. Non-trivial = non-empty bitmap whose arguments hit >=3 of {element, gap in chunk, gap between chunks, below min, above max, chunk edge}; distinct = FNV-64 of (spec, form, args)',
      T(4, 1500, 16, 25000),
      'property-based testing of every scalar query against an interval-set model',
@@ -60,7 +60,7 @@ prop('C15', 'p32', 'exploration',
 
 prop('C16', 'p32', 'exploration',
      'three rapid properties: AddOffset64/AddOffset with offsets from {multiples of 65536, small, min->0, max->2^32-1, extremes, any} vs model shift with clipping (+operand unchanged, result independent); static Flip vs model and vs in-place Flip on a clone; '
-     'dense conversions: ToDense/WriteDenseTo/DenseSize/ToBitSet/FromBitSet bit-for-bit, FromDense of generated word slices (lengths 0..4096 not multiples of 1024, palettes) with both copy modes where the caller words live in a PROT_READ guarded mapping and the result is then mutated. '
+     'dense conversions: ToDense/WriteDenseTo/DenseSize/ToBitSet/FromBitSet bit-for-bit (DenseSize also for bitmaps anywhere in the key space up to 2^32-1; the 2^26-word vector is materialized once per run), FromDense of generated word slices (lengths 0..4096 not multiples of 1024, palettes) with both copy modes where the caller words live in a PROT_READ guarded mapping and the result is then mutated. '
      'Non-trivial = offset not a multiple of 65536 with adjacent chunks / flip range spanning chunks / dense slice with a partial last chunk; distinct = FNV-64 of the case',
      T(4, 1000, 16, 15000),
      'property-based testing against a model + read-only guarded memory for the no-copy path',
@@ -71,7 +71,7 @@ SER_ASSUME = COMMON_ASSUME + ['the independent portable/frozen codecs (harness/s
 prop('C05', 'pser', 'fault_enumeration',
      'rapid draws history-dependent bitmaps (spec x form, then 0-6 mutations / algebra steps; 0..300 chunks) x entry point {ReadFrom with a generated reader chunking incl. 1 byte at a time, FromBuffer, FromUnsafeBytes, UnmarshalBinary, FromBase64} x receiver {fresh, reused built, reused zero-copy, copy-on-write on} x trailing garbage; '
      'checks writer agreement, byte accounting, exact consumption, Equals, post-decode operation history vs model; then ENUMERATES writer failure offsets (every offset when the stream is <=4096 bytes, else section boundaries +-1 and 128 random) in two failure modes. '
-     'Non-trivial = >=1 chunk and (reused receiver or a non-trivial reader chunking); distinct = FNV-64 of (history, entry, chunking, receiver). The regression test adds the empty bitmap and 65536 chunks.',
+     'Non-trivial = >=1 chunk and (reused receiver or a non-trivial reader chunking); distinct = FNV-64 of (history, entry, chunking, receiver). The regression tests add the empty bitmap, 65536 chunks, and an exhaustive small-scope sweep of reused receivers (26 previous sizes x 4 growth histories x every stream size up to 2R+8 x 5 entry points).',
      T(4, 600, 16, 8000),
      'property-based round-trip testing + exhaustive writer-fault enumeration per generated stream',
      'generated round trips with exact byte accounting; writer failure offsets enumerated exhaustively for streams <=4096 bytes',
@@ -88,14 +88,14 @@ prop('C06', 'pser', 'exploration',
 
 prop('C13', 'pser', 'exploration',
      'rapid draws history-dependent bitmaps; Freeze / FreezeTo (exact size, size+extra with sentinels, four too-small sizes) / WriteFrozenTo must agree byte for byte with GetFrozenSizeInBytes; the bytes are parsed by an independent strict decoder of the CRoaring frozen layout (arena order, tables, typecodes, count semantics per kind, cookie+count header); '
-     'FrozenView/MustFrozenView over the bytes in a PROT_READ guarded mapping must be Equal, validate, survive a generated write history (copying) with a forced GC, leave the bytes intact, and re-freeze identically. Non-trivial = >=2 chunk kinds present; distinct = FNV-64 of the history. Regression: empty bitmap and 65536 chunks.',
+     'FrozenView/MustFrozenView over the bytes in a PROT_READ guarded mapping must be Equal, validate, survive a generated write history (copying) with a forced GC, leave the bytes intact, and re-freeze identically; about a third of the cases then hand the library-written frozen bytes to C08's zero-copy operation machine (algebra in both roles, chunk-emptying removals, derived bitmaps, detaching, structural buffer oracle). Non-trivial = >=2 chunk kinds present; distinct = FNV-64 of the history. Regression: empty bitmap and 65536 chunks.',
      T(4, 600, 16, 8000),
      'property-based round-trip + differential testing against an independent frozen-layout decoder; guarded read-only memory',
      'generated-input search with independent decoder and memory-protection instruments',
      'trusted: my reading of the CRoaring frozen layout comment, anchored on testfrozendata/*', SER_ASSUME)
 
 POOL_RULES = ('rapid state machine over a pool of <=6 live bitmaps, each with its own model: rules new (any spec/form, optionally on the keys of an existing member), Clone, static And/Or/Xor/AndNot, static Flip, AddOffset64, FastOr/HeapOr/HeapXor/FastAnd/ParOr/ParHeapOr/ParAnd over lists drawn from the pool (duplicates, empties, worker counts 0..7), '
-              'in-place And/Or/Xor/AndNot (incl. self), AndAny, point/range/bulk mutations aimed at chunk keys that several members have in common, SetCopyOnWrite (never on zero-copy lineage), RunOptimize, CloneCopyOnWriteContainers')
+              'in-place And/Or/Xor/AndNot (incl. self), AndAny, point/range/bulk mutations aimed at chunk keys that several members have in common, SetCopyOnWrite (never on zero-copy lineage), RunOptimize, CloneCopyOnWriteContainers; constructive rules aimed at representation maintenance: trimRuns, andRange, comb, cowClone, dropChunks, andNotOwnPrefix, cutLongRun (range/flip ending exactly behind the longest interval of a run chunk), tinyRanges (1-14 ranges of 1-4 values, one per chunk), addManyComb (one AddMany of up to 3000 isolated values), reAddRange (AddRange over what is already there)')
 
 prop('C07', 'p32', 'exploration',
      POOL_RULES + '. Invariant after EVERY step: every pool member equals its own model (so interference in any direction is caught where it happens), the caller\'s argument slice is unchanged, no function returns one of its inputs, '
@@ -126,7 +126,7 @@ prop('C14', 'p32', 'exploration',
 
 prop('C11', 'p32', 'exploration',
      'rapid draws a list of 0..8 bitmaps (pointer duplicates, empty members, any chunk kinds and storage forms) whose keys fall in a common window of 1..260 keys placed at the bottom, middle or very top (ending at 0xFFFF) of the key space; one of FastOr/HeapOr/ParOr/ParHeapOr/FastAnd/ParAnd/HeapXor/x.AndAny is compared with the model fold; '
-     'the Par* functions are run with EVERY worker count in {0,1,2,3,4,7,16,33} on the same list and each result is compared. Non-trivial = >=3 members, >=2 distinct keys, >=1 key common to >=2 members; distinct = FNV-64 of (list, fn)',
+     'the Par* functions are run with EVERY worker count in {0,1,2,3,4,7,16,33} on the same list and each result is compared; afterwards a second aggregate of another kind over the same list is compared with its fold and every member (and the bytes behind zero-copy members) with its model. Non-trivial = >=3 members, >=2 distinct keys, >=1 key common to >=2 members; distinct = FNV-64 of (list, fn)',
      T(4, 700, 16, 10000),
      'property-based differential testing of n-ary aggregates against a model fold, all worker counts per case',
      'generated-input search with an independent model as oracle', 'trusted: interval-set model', COMMON_ASSUME)
@@ -174,7 +174,7 @@ BSI_ASSUME = ['the BSI reference model is a map column -> math/big.Int maintaine
 
 prop('C19', 'pbsi', 'exploration',
      'rapid state machine over (index, map column->big.Int), run for roaring64.BSI and BitSliceIndexing.BSI: SetValue, SetBigValue (64, values up to +-9*2^100), SetMany, ClearValues, Retain (64), ParOr of 1-3 separately built indexes on free columns with their own widths and worker counts {0,1,2,5}, Increment/IncrementAll/Add (only while all values are non-negative and in range), '
-     'Clone / NewBSIRetainSet (continue on the copy, originals re-checked at the end), MarshalBinary->UnmarshalBinary, WriteTo->ReadFrom (64), RunOptimize; flavours: auto-sized and fixed NewBSI(max,min) with values inside [min,max]; columns in several chunks/buckets incl. 2^32-1 and (64) up to 2^64-1. '
+     'Clone / NewBSIRetainSet (continue on the copy, originals re-checked at the end), operands of Add/ParOr kept with their own maps (re-checked at the end, re-used by later Add calls), MarshalBinary->UnmarshalBinary, WriteTo->ReadFrom (64), RunOptimize; flavours: auto-sized and fixed NewBSI(max,min) with values inside [min,max]; columns in several chunks/buckets incl. 2^32-1 and (64) up to 2^64-1. '
      'After every step: ValueExists/GetValue/GetBigValue for every column of the universe (present and absent), GetCardinality, GetValues/GetBigValues with duplicate and missing ids (64), Equals between copy and original (64). Non-trivial = history contains a negative value, a widening, and a copy/serialization step after both; distinct = FNV-64 of the history',
      T(4, 1500, 16, 20000),
      'model-based stateful property testing of both BSI implementations against a column->big.Int map',
@@ -183,7 +183,7 @@ prop('C19', 'pbsi', 'exploration',
 prop('C20', 'pbsi', 'exploration',
      'rapid draws a stored map (0..12 columns, values from a 4-value pool so that duplicates occur; extremes of the width; single column; empty), flavour (auto / fixed), RunOptimize on/off, a found-set {nil, all, random subset, single column, the existence set} and a worker count from {0,1,2,5,16}; for both implementations: '
      'CompareValue for 6 random (op, constants) per case with constants = stored values +-1, range edges, clamped to the representable range; BatchEqual (+BatchEqualBig, BatchEqualValues on 64); MinMax/MinMaxBig over non-empty found-sets; Sum/SumBigValues; IntersectAndTranspose and TransposeWithCounts for non-negative values inside the result universe; CompareBSI (64) for LT..GT against a second generated index; '
-     'then a bitmap returned by a query is mutated and the index must be unchanged. Oracle = the predicate / extremum / sum / histogram evaluated on the map restricted to the found-set. Non-trivial = >=3 columns, >=2 distinct values and a proper-subset found-set, or mixed signs; distinct = FNV-64 of (map, found-set, workers)',
+     'then a bitmap returned by a query is mutated and the index must be unchanged. TestC20Block64/32 (about 1 case in 60): indexes holding a whole 65536-column chunk with 1-3 piecewise-constant values (+ tail), run-optimized; CompareValue x found-set {nil, all, sub-range}, MinMax, BatchEqual, result scribbling, expected columns computed per piece, index re-read after every query. Oracle = the predicate / extremum / sum / histogram evaluated on the map restricted to the found-set. Non-trivial = >=3 columns, >=2 distinct values and a proper-subset found-set, or mixed signs; distinct = FNV-64 of (map, found-set, workers)',
      T(4, 3000, 16, 40000),
      'property-based differential testing of BSI queries against predicates evaluated on a map model',
      'generated-input search with an independent model as oracle', 'trusted: map model', BSI_ASSUME, run='^TestC20')
